@@ -421,9 +421,9 @@ GssvxVerdict(ev, sc) ==
                  /\ [j \in Cols(n) |-> ev.etree[j + 1]] = ColEtreeDef(PatternOf(ev.A0, tr), n, n, SeqToFn(ev.perm_c, n))
       \* ---- the phases the driver performed (hooks P:Phase), judged by the safety layer of SluDriver
       drvo == [Fact |-> fact, Equil |-> ev.opts.Equil = 1, Trans |-> ev.opts.Trans, nr |-> tr, nrhs |-> IF Has(ev, "B0") /\ ev.nrhs > 0 THEN 1 ELSE 0,
-               Cond |-> ev.opts.Cond = 1, Growth |-> ev.opts.PivotGrowth = 1, Refine |-> ev.opts.IterRefine # 0,
-               lw |-> IF query THEN "query" ELSE "sys", ilu |-> FALSE, mc64 |-> FALSE]
-      phDue == Has(ev, "phases") /\ ev.fn = "gssvx" /\ ev.phases # <<>> /\ EquedOK(q)
+               Cond |-> ev.opts.Cond = 1, Growth |-> ev.opts.PivotGrowth = 1, Refine |-> (ev.fn = "gssvx" /\ ev.opts.IterRefine # 0),
+               lw |-> IF query THEN "query" ELSE "sys", ilu |-> ev.fn = "gsisx", mc64 |-> (ev.fn = "gsisx" /\ ev.opts.RowPerm = 1)]
+      phDue == Has(ev, "phases") /\ ev.phases # <<>> /\ EquedOK(q)
       drvbad == IF phDue THEN DrvI!SafeClauses(drvo, info, n, q, ev.phases) ELSE {}
       bad == fv.bad \cup iv.bad \cup drvbad
         \cup (IF ~EquedOK(q) THEN {"C05.equed_letter"} ELSE {})
@@ -436,6 +436,10 @@ GssvxVerdict(ev, sc) ==
         \cup (IF ev.fn = "gssvx" /\ info > 0 /\ info <= n /\ Has(ev, "B_same") /\ ev.B_same # 1 THEN {"C04.B_modified"} ELSE {})
         \cup (IF fact = 3 /\ info >= 0 /\ ~(ev.same.Lval = 1 /\ ev.same.Uval = 1 /\ ev.same.Lstr = 1 /\ ev.same.Ustr = 1 /\ ev.same.perm_c = 1 /\ ev.same.perm_r = 1)
               THEN {"C06.resolve_altered_factors"} ELSE {})
+        \* with supplied factors equed, R, C (and the tree) are inputs: a re-solve hands them back as it received them, otherwise the
+        \* NEXT re-solve works with another system than the factors belong to
+        \cup (IF fact = 3 /\ info >= 0 /\ ~(ev.same.equed = 1 /\ ev.same.R = 1 /\ ev.same.C = 1 /\ ev.same.etree = 1)
+              THEN {"C06.resolve_altered_scaling_state", "C15.resolve_altered_scaling_state"} ELSE {})
         \cup (IF fact \in {1, 2} /\ info >= 0 /\ ev.same.perm_c # 1 THEN {"C06.column_order_not_reused"} ELSE {})
         \* the elimination tree is part of what a later SamePattern call reuses: with Fact # DOFACT it is an input and stays as it was;
         \* after DOFACT it is the column elimination tree of A under the returned column order (C10), whatever ?gstrf did with it meanwhile
@@ -491,7 +495,7 @@ GssvxVerdict(ev, sc) ==
         \cup (IF sc.memfail THEN {"C08.shortage_seen"} ELSE {})
         \cup (IF q # "N" THEN {"C05.equed_" \o q} ELSE {})
         \cup (IF etreeDue THEN {"C10.driver_etree_checked"} ELSE {})
-        \cup (IF phDue THEN {"C05.driver_phases_checked"} ELSE {})
+        \cup (IF phDue THEN {"C05.driver_phases_checked"} \cup (IF isilu THEN {"C15.driver_phases_checked"} ELSE {}) ELSE {})
         \cup {"C06.fact_" \o (CASE fact = 0 -> "DOFACT" [] fact = 1 -> "SamePattern" [] fact = 2 -> "SameRowPerm" [] OTHER -> "FACTORED")}
   IN [bad |-> bad, arb |-> fv.arb \cup sv.arb \cup numarb \cup iv.arb, cov |-> cov \cup iv.cov, digs |-> IF factored /\ cmpInfo THEN digs ELSE <<>>, d2 |-> fv.d2]
 
